@@ -86,30 +86,8 @@ Proof.
   destruct mup; cbn [snd]; [now rewrite andb_true_r|now rewrite andb_false_r].
 Qed.
 
-Lemma report_established_ok al mask : snd (report_established al mask) = all_alive al.
-Proof. unfold report_established. destruct (all_alive al); reflexivity. Qed.
-
-Lemma report_established_all al mask :
-  all_alive al = true -> fst (report_established al mask) = map NEst (seq 0 (length al)).
-Proof.
-  intro H. unfold report_established, send_all. rewrite H, send_all_from_spec. cbn [fst]. f_equal.
-  clear mask. generalize 0%nat. induction al as [|a t IH]; intro k; cbn [alive_idx length seq]; [reflexivity|].
-  cbn [all_alive forallb] in H. apply andb_prop in H. destruct H as [Ha Ht]. subst a.
-  cbn [app]. f_equal. now apply IH.
-Qed.
-
-(* with a dead receiver: an error, and only live protocols the oracle names are told *)
-Lemma est_partial_in k al mask x :
-  In x (est_partial k al mask) -> exists i, x = NEst i /\ (k <= i)%nat /\ nth (i - k) al false = true.
-Proof.
-  revert k mask. induction al as [|a t IH]; intros k mask; cbn [est_partial]; [intros []|].
-  rewrite in_app_iff. intros [H|H].
-  - destruct a; cbn [andb] in H; [|destruct H]. destruct (hd false mask); [|destruct H].
-    destruct H as [H|[]]. exists k. split; [now symmetry|]. split; [lia|].
-    replace (k - k)%nat with 0%nat by lia. reflexivity.
-  - apply IH in H. destruct H as (i & E & Hk & Hn). exists i. split; [exact E|]. split; [lia|].
-    replace (i - k)%nat with (S (i - S k)) by lia. exact Hn.
-Qed.
+Lemma report_established_spec al : report_established al = (map NEst (alive_idx 0 al), true).
+Proof. unfold report_established, send_all. now rewrite send_all_from_spec. Qed.
 
 (* ------------------------------------------------------------------------------------------ *)
 (* counting notes                                                                              *)
@@ -380,55 +358,39 @@ Qed.
 (* ------------------------------------------------------------------------------------------ *)
 (* accept                                                                                      *)
 
-Lemma accept_all_alive al mup mask :
-  all_alive al = true ->
-  accept al mup mask = (Some (mkTask al mup None), map NEst (seq 0 (length al))).
-Proof.
-  intro H. unfold accept. pose proof (report_established_ok al mask) as H1.
-  pose proof (report_established_all al mask H) as H2.
-  destruct (report_established al mask) as [ns ok]. cbn [fst snd] in *. subst. rewrite H. reflexivity.
-Qed.
+(* accept tells every live protocol once, skips the ones that have exited, and starts the loop *)
+Lemma accept_spec al mup :
+  accept al mup = (Some (mkTask al mup None), map NEst (alive_idx 0 al)).
+Proof. unfold accept. now rewrite report_established_spec. Qed.
 
-Lemma accept_dead al mup mask :
-  all_alive al = false ->
-  fst (accept al mup mask) = None /\
-  forall x, In x (snd (accept al mup mask)) -> exists i, x = NEst i /\ nth i al false = true.
-Proof.
-  intro H. unfold accept, report_established. rewrite H. cbn [fst snd]. split; [reflexivity|].
-  intros x Hx. apply est_partial_in in Hx. destruct Hx as (i & E & _ & Hn). exists i. split; [exact E|].
-  now replace (i - 0)%nat with i in Hn by lia.
-Qed.
-
-Lemma cnt_est_seq i n : cnt (is_est_of i) (map NEst (seq 0 n)) = if (i <? n)%nat then 1%nat else 0%nat.
-Proof.
-  rewrite cnt_est_map by apply seq_NoDup.
-  destruct (i <? n)%nat eqn:E.
-  - replace (existsb (Nat.eqb i) (seq 0 n)) with true; [reflexivity|]. symmetry. apply existsb_exists.
-    exists i. split; [apply in_seq; apply Nat.ltb_lt in E; lia|apply Nat.eqb_refl].
-  - destruct (existsb (Nat.eqb i) (seq 0 n)) eqn:Ex; [|reflexivity].
-    apply existsb_exists in Ex. destruct Ex as (y & Hy & Ey). apply Nat.eqb_eq in Ey. subst y.
-    apply in_seq in Hy. apply Nat.ltb_ge in E. lia.
-Qed.
+Lemma cnt_est_alive i al :
+  cnt (is_est_of i) (map NEst (alive_idx 0 al)) = if nth i al false then 1%nat else 0%nat.
+Proof. rewrite cnt_est_map by apply alive_idx_nodup. now rewrite existsb_alive_idx. Qed.
 
 (* the whole life of a connection: accept, then the loop *)
-Definition conn_run (al : list bool) (mup : bool) (mask : list bool) (es : list cev) : option task * list note :=
-  match accept al mup mask with
+Definition conn_run (al : list bool) (mup : bool) (es : list cev) : option task * list note :=
+  match accept al mup with
   | (Some t, ns0) => let '(t', ns) := crun t es in (Some t', ns0 ++ ns)
   | (None, ns0) => (None, ns0)
   end.
 
-Lemma lifecycle al mup mask es t' ns :
-  all_alive al = true -> conn_run al mup mask es = (Some t', ns) -> gone t' <> None ->
-  (* announced to every protocol exactly once, before anything else *)
-  (exists rest, ns = map NEst (seq 0 (length al)) ++ rest /\ (forall i, cnt (is_est_of i) rest = 0%nat)) /\
-  (forall i, (i < length al)%nat -> cnt (is_est_of i) ns = 1%nat) /\
+Lemma conn_run_started al mup es : exists t' ns, conn_run al mup es = (Some t', ns).
+Proof.
+  unfold conn_run. rewrite accept_spec. destruct (crun (mkTask al mup None) es) as [t1 n1]. eauto.
+Qed.
+
+Lemma lifecycle al mup es t' ns :
+  conn_run al mup es = (Some t', ns) -> gone t' <> None ->
+  (* announced to every protocol that runs, exactly once, before anything else *)
+  (exists rest, ns = map NEst (alive_idx 0 al) ++ rest /\ (forall i, cnt (is_est_of i) rest = 0%nat)) /\
+  (forall i, cnt (is_est_of i) ns = if nth i al false then 1%nat else 0%nat) /\
   (* closed: the manager once (if it still exists), every protocol that is still running once *)
   cnt is_mgr_closed ns = (if mgr_up t' then 1%nat else 0%nat) /\
   (forall i, cnt (is_closed_of i) ns = if nth i (alive t') false then 1%nat else 0%nat) /\
   (* whoever is told closed was told established *)
-  (forall i, nth i (alive t') false = true -> (i < length al)%nat).
+  (forall i, nth i (alive t') false = true -> nth i al false = true).
 Proof.
-  intros Ha E Hx. unfold conn_run in E. rewrite (accept_all_alive al mup mask Ha) in E.
+  intros E Hx. unfold conn_run in E. rewrite accept_spec in E.
   destruct (crun (mkTask al mup None) es) as [t1 n1] eqn:Er. inversion E; subst t1 ns; clear E.
   assert (Hg : gone (mkTask al mup None) = None) by reflexivity.
   pose proof (exit_reports _ es Hg) as R. rewrite Er in R. cbn [fst snd] in R. specialize (R Hx).
@@ -440,14 +402,13 @@ Proof.
     apply cnt_zero. intros x Hx'. unfold closed_part in Hx'. apply in_app_iff in Hx'. destruct Hx' as [H|H].
     - apply in_map_iff in H. destruct H as (j & <- & _). reflexivity.
     - destruct (mgr_up t'); [destruct H as [<-|[]]; reflexivity|destruct H]. }
-  assert (Hc0 : forall f, (forall j, f (NEst j) = false) -> cnt f (map NEst (seq 0 (length al))) = 0%nat).
+  assert (Hc0 : forall f, (forall j, f (NEst j) = false) -> cnt f (map NEst (alive_idx 0 al)) = 0%nat).
   { intros f Hf. apply cnt_zero. intros x Hx'. apply in_map_iff in Hx'. destruct Hx' as (j & <- & _). apply Hf. }
   split; [exists n1; split; [reflexivity|exact Hest0]|]. split; [|split; [|split]].
-  - intros i Hi. rewrite cnt_app, cnt_est_seq, Hest0. apply Nat.ltb_lt in Hi. rewrite Hi. reflexivity.
+  - intro i. rewrite cnt_app, cnt_est_alive, Hest0. lia.
   - rewrite cnt_app, Hc0 by reflexivity. exact R1.
   - intro i. rewrite cnt_app, Hc0 by reflexivity. apply R2.
-  - intros i Hi. apply Hal in Hi. destruct (Nat.lt_ge_cases i (length al)) as [L|L]; [exact L|].
-    rewrite nth_overflow in Hi by exact L. discriminate.
+  - exact Hal.
 Qed.
 
 (* ------------------------------------------------------------------------------------------ *)
@@ -510,17 +471,16 @@ Proof.
 Qed.
 
 (* ------------------------------------------------------------------------------------------ *)
-(* F-C07b: one dead protocol makes accept fail, partially announced                             *)
+(* F-C07b (repaired): the accept as it was failed as soon as one protocol had exited            *)
 
-Lemma accept_dead_refuted :
-  exists al mask, existsb (fun b => b) al = true /\
-  fst (accept al true mask) = None /\
-  In (NEst 0) (snd (accept al true mask)) /\ ~ In (NEst 2) (snd (accept al true mask)) /\
-  cnt is_close_note (snd (accept al true mask)) = 0%nat.
-Proof.
-  exists [true; false; true], [true; false; false]. cbn. repeat split; try tauto.
-  intros [H|[]]. discriminate.
-Qed.
+Definition accept_unfixed (al : list bool) (mup : bool) (told : list nat) : option task * list note :=
+  if all_alive al then accept al mup else (None, map NEst told).
+
+Lemma unfixed_accept_refused :
+  fst (accept_unfixed [true; false; true] true [0%nat]) = None /\
+  (* the repaired accept serves the two protocols that still run and starts the loop *)
+  accept [true; false; true] true = (Some (mkTask [true; false; true] true None), [NEst 0; NEst 2]).
+Proof. split; reflexivity. Qed.
 
 (* ------------------------------------------------------------------------------------------ *)
 (* the WebSocket and QUIC loops: their own tables, tied to the source the same way             *)
